@@ -148,7 +148,7 @@ theorem genExportPickle_eq (env : Env) (cwd : Path) (m : List (String × String)
   funext fs
   unfold genExportPickle exportPickleSpec
   simp only [genExport_eq, genValidateFilepath_eq, genParseAndValidate_eq, W.bind_pure_unit, W.bind_pure,
-    strLast3_beq, strLast3_bne, Bool.not_eq_true', ite_not]
+    strLast3_beq, strLast3_bne, strEndsWith_gz, Bool.not_eq_true', ite_not]
   have hopen : ∀ b : Bool, (if b = false then Opener.plain else Opener.gzip) = if b = true then Opener.gzip else Opener.plain := by
     intro b; cases b <;> rfl
   try simp only [hopen]
